@@ -664,6 +664,9 @@ class C09(Monitor):
     def _actors(self):
         return ",".join(sorted({v.role for v in self.w.live})) or "nobody"
 
+    def finish(self):
+        self.w.status_states = self.states
+
     def _local_teardown(self, sub):
         return False
 
@@ -848,6 +851,23 @@ class C18World(Monitor):
                 if st is not None and st not in FINISHED_OK and i not in after:
                     self.bad("unfinished_treated_finished", "batch reported in a non-finished state was treated as finished",
                              f"id {i} listed as {st} by squeue but dropped from active ids by {w.vprocs[vpid].role}")
+        elif kind == "spawn" and d.get("role") == "try-submit-jobs":
+            vp = w.vprocs[vpid]
+            if vp.parent is not None and vp.parent.role == "show-status":
+                # show-status offers the recovery only if every persisted id is gone from the scheduler
+                sub = next((s_ for s_ in self.ctx.subs.values() if s_.out in vp.argv), None)
+                if sub is not None:
+                    try:
+                        _, js = state.read_status(sub.out)
+                    except state.Unparsable:
+                        js = None
+                    held = [i for i in (js or {}).get("hpc_job_ids", []) if w.slurm.holds(i)
+                            and w.slurm.jobs[str(i)].state not in ("COMPLETED",)]
+                    w.probe("show_status_recovery")
+                    if held:
+                        self.bad("show_status_recovery_with_live_batch",
+                                 "show-status started the recovery while the scheduler still holds a batch of the submission",
+                                 f"ids {[(i, w.slurm.jobs[str(i)].state) for i in held]}")
         elif kind == "sbatch" and d.get("why") == "garbage":
             w.probe("sbatch_garbage")
             sub = self.ctx.sub_for_path(d.get("output"))
